@@ -350,6 +350,27 @@ def runVq2 (ws : List String) : String :=
   | ["backlog", k, n] => match n.toNat? with
     | some n => if n ≤ 100000 then runVqBacklog k n else "bad-case"
     | none => "bad-case"
+  | ["expirerace", r] =>
+    -- a timer (1 unit) pending, receive_timeout(6 units): whether the cancel is folded before or after the
+    -- expiry test, the model never answers none before time 6 (`timeout_none_sound`)
+    match r.toNat? with
+    | some r =>
+      if r = 0 ∨ r > 100000 then "bad-case"
+      else
+        let run (acts : List (Act Nat)) : Option (St Nat) := acts.foldlM (fun (s : St Nat) a => step s a) ({} : St Nat)
+        -- schedule A: the cancel is folded with the expiry wake-up; schedule B: the timer is returned first
+        let a := run [.sendTimer 1 1, .call .recvTimeout 6, .readClock, .foldPick, .tick 1]
+        let early := match a with
+          | some s =>
+            match s.created[0]? with
+            | some c =>
+              match [Act.cancel c.key, .wake .timer, .readClock, .foldPick].foldlM (fun (s : St Nat) x => step s x) s with
+              | some s' => (s'.returned.filter fun (o : Out Nat × Nat) => (match o.1 with | Out.none => true | _ => false) && o.2 < 6).length
+              | none => 0
+            | none => 0
+          | none => 0
+        s!"early_none={early}"
+    | none => "bad-case"
   | ["early", r] =>
     -- timers of several durations; in the model (logical time, 1 unit = 1 us) a receive whose clock
     -- reading is before the deadline does not return the timer, one at the deadline does
